@@ -1307,7 +1307,7 @@ func ruleNumeralValidatedWhereSkipped(c *Ctx) {
 		}
 		n++
 		c.Sites++
-		reads := len(callsTo(fn, pn)) > 0 || len(callsTo(fn, lv)) > 0
+		reads := reachesThroughNewHelpers(fn, pn) || reachesThroughNewHelpers(fn, lv)
 		c.check(reads, R, "numeral-checked-where-recognised:"+fname(fn), p.pos(fn.Pos()), "the function runs the numeral reader on the constants it recognises", fname(fn)+" recognises a number constant (and may skip compiling it) without running the numeral reader: `if 1e then … end` or `local x = 1e and 2` is accepted although `return 1e` is a 'malformed number' error")
 	}
 	if n < 3 {
